@@ -204,13 +204,15 @@ func c09Exec(raw json.RawMessage, hist []string, deep bool) *bfsResult {
 
 // ---- store-level sub-check ----
 
-func c09Store(run *ev.Run) (states, trans int) {
+func c09Store(run *ev.Run, depth int) (states, trans int) {
 	resetGlobals()
 	scriptClientRandomness()
 	newHub()
 	dev := key("kDev")
 	s0 := mkScripted("S0", 10)
-	slots := []uint32{c09Origin - 1, c09Origin, c09Origin + 1, c09Origin + 5000, 14316557}
+	// incl. the largest slot the energy-file reader can yield, and slots whose byte offset 4*(1+slot-origin)
+	// does not fit 32 bits (it would wrap onto the header / onto the cell of slot origin+1)
+	slots := []uint32{c09Origin - 1, c09Origin, c09Origin + 1, c09Origin + 5000, 14316557, c09Origin + 1<<30 - 1, c09Origin + 1<<30 + 1, 1<<32 - 1}
 	vals := []uint32{0, 1, 5, 1<<32 - 1, 6}
 	var ops []string
 	for _, s := range slots {
@@ -237,7 +239,13 @@ func c09Store(run *ev.Run) (states, trans int) {
 				run.Violation("store/panic", map[string]interface{}{"history": hist, "panic": firstLine(p)})
 				return "PANIC", false
 			}
-			wantErr := s < c09Origin || (model[s] != 0 && model[s] != v)
+			// out of range: before the origin, or so far beyond it that the byte offset no longer fits the
+			// file format's 32-bit arithmetic - such readings must be refused rather than misplaced
+			outOfRange := s < c09Origin || uint64(s-c09Origin)+1 >= 1<<30
+			wantErr := outOfRange || (model[s] != 0 && model[s] != v)
+			if outOfRange && v == 0 {
+				wantErr = serr != nil // saving "nothing" out of range may be a no-op or an error
+			}
 			if i == len(hist)-1 && (serr != nil) != wantErr {
 				run.Violation("store/save-result", map[string]interface{}{"history": hist, "err": fmt.Sprint(serr), "model_expects_error": wantErr})
 				ok = false
@@ -245,6 +253,11 @@ func c09Store(run *ev.Run) (states, trans int) {
 			if !wantErr && v != 0 {
 				model[s] = v
 			}
+		}
+		// the header (history origin) is never overwritten
+		if hb, err := os.ReadFile(filepath.Join(w.Dir, client.HistoryFile)); err == nil && len(hb) >= 4 && binary.LittleEndian.Uint32(hb) != c09Origin {
+			run.Violation("store/header-overwritten", map[string]interface{}{"history": hist, "header": binary.LittleEndian.Uint32(hb)})
+			ok = false
 		}
 		// every slot reads back what the model holds, and nothing else moved
 		for _, s := range append(append([]uint32{}, slots...), c09Origin+2, c09Origin+4999, 14316556) {
@@ -266,7 +279,7 @@ func c09Store(run *ev.Run) (states, trans int) {
 		sort.Strings(ks)
 		return strings.Join(ks, ","), ok
 	}
-	st := bfsInProc(run, 3, 0, func([]string) []string { return ops }, exec)
+	st := bfsInProc(run, depth, 0, func([]string) []string { return ops }, exec)
 	return st.States, st.Transitions
 }
 
@@ -283,10 +296,14 @@ func init() {
 			depth = 5
 		}
 		st := bfsPool(run, p, "c09", c09Arg{Big: true}, depth, 0, func([]string) []string { return ops })
-		s2, t2 := c09Store(run)
+		sd := 2
+		if tier == "thorough" {
+			sd = 3
+		}
+		s2, t2 := c09Store(run, sd)
 		st.States += s2
 		st.Transitions += t2
-		finishBfs(run, st, "(a) BFS over histories of energy-file edits (append for two slots and a slot before the history origin, values 100/200/sentinel 2/unparseable (sentinel 3)/literal 3/3e9/2^32+100, rewrite, duplicate with another value, reorder, malformed row, remove), send-loop ticks, client restarts and sync rounds against a server that reports nothing received, on the real client; every datagram on the wire is logged; oracle: per slot all datagrams with power not in {0,1} are identical, no history cell ever changes once non-zero, no report for a slot before the origin; (b) BFS (depth 3) over save sequences of the history store on 5 slots x 5 values against a map model")
+		finishBfs(run, st, "(a) BFS over histories of energy-file edits (append for two slots and a slot before the history origin, values 100/200/sentinel 2/unparseable (sentinel 3)/literal 3/3e9/2^32+100, rewrite, duplicate with another value, reorder, malformed row, remove), send-loop ticks, client restarts and sync rounds against a server that reports nothing received, on the real client; every datagram on the wire is logged; oracle: per slot all datagrams with power not in {0,1} are identical, no history cell ever changes once non-zero, no report for a slot before the origin; (b) BFS (depth 2 quick / 3 thorough) over save sequences of the history store on 8 slots (before the origin, at it, far beyond the end of the file, the largest slot the reader can yield, and slots whose 32-bit byte offset would wrap) x 5 values against a map model; the header must never change")
 		run.Coverage["alphabet"] = ops
 		run.Coverage["store_states"] = s2
 		run.Coverage["store_transitions"] = t2
